@@ -102,6 +102,30 @@ func (l *c07cLogger) Warningf(f string, a ...interface{}) {}
 func (l *c07cLogger) Debugf(f string, a ...interface{})   {}
 func (l *c07cLogger) Close() error                        { return nil }
 
+// c07cFlakyDB is the replica database as the replicator sees it: now and then ReplicateTx fails a few
+// times in a row with a transient error before it goes through (a disk or resource hiccup); the
+// replicator has to retry "as many times as necessary".
+type c07cFlakyDB struct {
+	database.DB
+	env      *c07cEnv
+	failLeft int
+}
+
+func (f *c07cFlakyDB) ReplicateTx(ctx context.Context, exportedTx []byte, skipIntegrityCheck bool, waitForIndexing bool) (*schema.TxHeader, error) {
+	e := f.env
+	if !e.quiet {
+		if f.failLeft == 0 && e.r.Pct(4) {
+			f.failLeft = 1 + e.r.Intn(5)
+		}
+		if f.failLeft > 0 {
+			f.failLeft--
+			e.r.Fault("replicate-transient-error")
+			return nil, errors.New("simulated transient failure of the replica store")
+		}
+	}
+	return f.DB.ReplicateTx(ctx, exportedTx, skipIntegrityCheck, waitForIndexing)
+}
+
 type c07cDelayer struct{}
 
 func (c07cDelayer) DelayAfter(retries int) time.Duration {
@@ -309,7 +333,7 @@ func c07cBody(r *simcore.Run) {
 			WithClientFactoryFunc(func(string, int) client.ImmuClient { return &c07cClient{env: env, rep: i} })
 		// a replica keeps its identity across restarts (the server persists it)
 		uuid, _ := xid.FromBytes([]byte{0, 0, 0, 0, 0, 0, 0, 0, 0, 0, 7, byte(i + 1)})
-		t, err := replication.NewTxReplicator(uuid, d, opts, &c07cLogger{env: env, rep: i})
+		t, err := replication.NewTxReplicator(uuid, &c07cFlakyDB{DB: d, env: env}, opts, &c07cLogger{env: env, rep: i})
 		if err != nil {
 			r.Trouble("NewTxReplicator: %v", err)
 		}
